@@ -13,6 +13,7 @@ mod driver;
 mod exec;
 mod fault;
 mod frag;
+mod hooks;
 mod frames;
 mod gen;
 mod model;
